@@ -162,16 +162,108 @@ def model_ghost(c, o, r):
           for g in c.ghost_params}
 
 
+def _arr_from_model(text, n):
+  """n elements of an array value printed by z3 (K(Int, c) with nested Store(a, i, v)); unconstrained -> zeros."""
+  import re
+  vals = [0] * n
+  if not isinstance(text, str):
+    return vals
+  mk = re.search(r"K\(Int, (-?\d+)\)", text)
+  if mk:
+    vals = [int(mk.group(1))] * n
+  elif "Store" not in text:
+    return None            # lambda / if-then-else array: not rebuilt
+  # Store(Store(K(..), i1, v1), i2, v2): the stores are applied inside-out = left to right in the printed text
+  for mi in re.finditer(r", (-?\d+), (-?\d+)\)", text):
+    i, v = int(mi.group(1)), int(mi.group(2))
+    if 0 <= i < n:
+      vals[i] = v
+  return vals
+
+
+def _model_list(name, o, m):
+  """list[int] / list[tuple[int, ...]] parameter from the recorded length and element arrays; None if not rebuilt."""
+  inp = o["inputs"]
+  if f"{name}#len" not in inp:
+    return "<absent>"
+  n = m.get(inp[f"{name}#len"])
+  n = 0 if n is None else int(n)
+  if n < 0 or n > 10000:
+    return None
+  if f"{name}#arr" in inp:
+    return _arr_from_model(m.get(inp[f"{name}#arr"]), n)
+  comps = sorted(int(k[len(name) + 4:].split("]")[0]) for k in inp if k.startswith(name + "[.][") and k.endswith("#arr"))
+  if comps:
+    cols = [_arr_from_model(m.get(inp[f"{name}[.][{i}]#arr"]), n) for i in comps]
+    if any(cc is None for cc in cols):
+      return None
+    return [tuple(cc[j] for cc in cols) for j in range(n)]
+  return None
+
+
 def model_kwargs(c, o, r):
-  """Projects the model onto the function's parameters (scalars / optional scalars / tuples of scalars only)."""
+  """Projects the model onto the function's parameters (scalars, optional scalars, tuples of scalars, lists of ints and
+  lists of int tuples)."""
   m = r.get("model") or {}
   kw = {}
   for name, t in c.params.items():
     v = _model_value(name, o, m)
     if v == "<absent>":
-      return None
+      v = _model_list(name, o, m)
+      if v is None or v == "<absent>":
+        return None
     kw[name] = v
   return kw
+
+
+def replay_call_site(c, o, r, prop):
+  """Hook obligation `<fn>/at-call:<Callee>@..:<clause>` of a module-level function: the real function is run on the
+  model's arguments with the real callee wrapped so that its arguments / result are captured, and the clause is
+  evaluated on (parameters, args, ret).  Returns (input, detail) when the clause is false at some call, else None.
+  Clauses that mention locals of the function cannot be evaluated from outside and are not replayed."""
+  import inspect
+  lab = o["label"]
+  if "/at-call:" not in lab or "." in c.qual.split("#")[0]:
+    return None
+  callee_q = lab.split("/at-call:", 1)[1].split("@", 1)[0]
+  key = next((k for k in c.on_call if not k.startswith("builtin:") and k.split("::")[1] == callee_q), None)
+  if key is None or "." in callee_q:
+    return None
+  kw = model_kwargs(c, o, r)
+  if kw is None:
+    return None
+  for cl in c.requires:
+    if not concrete.eval_clause(cl.text, dict(kw)):
+      return None
+  cmod = importlib.import_module(key.split("::")[0][:-3].replace("/", "."))
+  real = getattr(cmod, callee_q)
+  pnames = [p_ for p_ in inspect.signature(real).parameters]
+  seen = []
+
+  def wrapper(*a, **k):
+    ret = real(*a, **k)
+    bound = inspect.signature(real).bind(*a, **k)
+    bound.apply_defaults()
+    seen.append((tuple(bound.arguments[p_] for p_ in pnames), ret))
+    return ret
+  fn = resolve_function(c)
+  setattr(cmod, callee_q, wrapper)
+  try:
+    import copy
+    try:
+      fn(**copy.deepcopy(kw))
+    except Exception as e:   # the function may legitimately raise after the call of interest
+      pass
+  finally:
+    setattr(cmod, callee_q, real)
+  for args, ret in seen:
+    try:
+      ok = concrete.eval_clause(o["clause"], dict(kw, args=args, ret=ret))
+    except Exception:
+      return None
+    if not ok:
+      return kw, dict(violated=o["clause"], callee=callee_q, args=repr(args)[:300], ret=repr(ret)[:100])
+  return None
 
 
 def _model_kwargs_old(c, o, r):
@@ -277,7 +369,17 @@ def make(prop, o, r, why, tier):
     try:
       fn = resolve_function(c)
       is_method = "." in c.qual
-      if not is_method:
+      if not is_method and o["kind"] == "call-site" and r["status"] == "sat":
+        try:
+          hit = replay_call_site(c, o, r, prop)
+        except Exception as e:  # noqa: BLE001
+          hit = None
+          out["replay_note"] = f"call-site replay error: {e!r}"
+        if hit:
+          out["reproduced"] = True
+          out["replay"] = dict(input={k: _j(x) for k, x in hit[0].items()}, violated=True, detail=hit[1],
+                               via="real function run with the callee wrapped")
+      elif not is_method:
         kw = model_kwargs(c, o, r) if r["status"] == "sat" else None
         if kw is not None:
           v, d = run_case(c, fn, kw, prop)
